@@ -580,6 +580,39 @@ def r1_6(ctx):
         ctx.bad("R1.6", fi.module, fi.qual, "self.pending_notifications = [] before selected()", "SELECT/EXAMINE can give the session a fresh view while lines queued for its old view are kept (e.g. when the same mailbox is selected again): the next flush replays a stale EXPUNGE onto the fresh view", fi.node.lineno)
 
 
+def _sel_classify(e):
+    if isinstance(e, ast.Attribute) and e.attr == "mbox" and isinstance(e.value, ast.Name) and e.value.id == "self":
+        return "has_mbox"
+    if isinstance(e, ast.Compare) and len(e.ops) == 1 and isinstance(e.ops[0], ast.Eq) and norm(e.left) == "self.state" and norm(e.comparators[0]).endswith("SELECTED"):
+        return "selected"
+    return None
+
+
+def r1_6b(ctx):
+    """While a SELECT / EXAMINE waits for the new mailbox (get_mailbox, the admission queue) other sessions' commands run.  A
+    session that is still registered with its old mailbox during that wait is handed their EXPUNGE lines - into the queue it
+    has just emptied - and replays them onto the fresh view.  So: on every path on which the session has a selected mailbox,
+    `self.mbox.unselected(...)` runs before the first suspension point that follows the clearing of the queue - also when the
+    mailbox selected again is the same one."""
+    p = ctx.p
+    fi = p.func("client.Authenticated.do_select")
+    g = ctx.cfg(fi)
+    uns = {n.id for n in g.nodes if n.ast is not None and n.kind == "stmt" and any(call_name(c) == "unselected" and norm(call_recv(c)) == "self.mbox" for c in calls_in(n.ast))}
+    ctx.require(uns, "do_select: self.mbox.unselected(...) not found")
+    waits = {n.id for n in g.nodes if n.ast is not None and n.kind in ("stmt", "with_enter") and any(call_name(c) in ("get_mailbox", "ready_and_okay", "selected") for c in calls_in(n.ast))}
+    ctx.require(waits, "do_select: get_mailbox / ready_and_okay not found")
+    hit = flow.feasible_paths_exist(
+        g, g.entry, waits, _sel_classify, labels=flow.NORMAL, avoid=lambda n: n in uns,
+        accept=lambda n, f: f.get("has_mbox") is not False and f.get("selected") is not False,
+    )
+    ctx.paths_explored += 1
+    if hit:
+        path, facts = hit
+        ctx.bad("R1.6", fi.module, fi.qual, "self.mbox.unselected(...) before the SELECT waits", "a session with a selected mailbox can reach get_mailbox / the admission of the new mailbox while still registered with the old one (e.g. when the same mailbox is selected again): EXPUNGEs of commands that run during the wait are queued for it and replayed onto the fresh view", g.nodes[path[-1]].line, flow.fmt_path(g, path))
+    else:
+        ctx.ok("R1.6", where(fi), "every path with a selected mailbox unregisters from it before the SELECT waits for the new one")
+
+
 def r1_7(ctx):
     """The message count a session is told (`* n EXISTS`) is the length of the server's message list at that moment:
     len(self.msg_keys) in the SELECT response; len of the freshly merged key list in the resync - which is what self.msg_keys
@@ -616,6 +649,7 @@ def run(ctx):
     ctx.do(r1_4)
     ctx.do(r1_5)
     ctx.do(r1_6)
+    ctx.do(r1_6b)
     ctx.do(r1_7)
     from . import c02
     ctx.do(c02.r2_6)
